@@ -11,7 +11,7 @@ for d in sorted(glob.glob('/verif/seeded/*/')):
     short = sorted({'/'.join(s.split('@')[0].split('/')[:3]) for s in sigs})
     det = v.get('detected')
     rows.append((name, m.get('summary', '')[:150].replace('|', '/').replace('\n', ' '), m.get('needs_to_manifest', '')[:170].replace('|', '/').replace('\n', ' '),
-                 'yes' if v.get('demo_confirms') else 'NO', ('caught (%s, %ss)' % (v.get('check_flavours', '?'), v.get('check_wall_s', '?'))) if det else ('MISSED' if det is False else 'not run'),
+                 'yes' if v.get('demo_confirms') else 'NO', ('caught (%s, %ss)%s' % (v.get('check_flavours', '?'), v.get('check_wall_s', '?'), ' after strengthening' if any(e.get('detected') is False for e in v.get('earlier_evaluations', [])) else '')) if det else ('MISSED' if det is False else 'not run'),
                  ', '.join(short[:3]) + (' ...' if len(short) > 3 else '')))
 print('| seeded change | what was changed | needs to manifest | demo confirmed | quick check | violation signatures (cell/aspect/kind) |')
 print('|---|---|---|---|---|---|')
